@@ -307,6 +307,12 @@ func (e *env) runNsux(line string, t []string) {
 			break
 		}
 	}
+	for i, u := range tbl {
+		if i != k && u != uri && strings.EqualFold(u, uri) {
+			e.r.Hit("nsux:table-has-case-variant")
+			break
+		}
+	}
 	text := "nsu=" + uri + ";" + id
 	ref := fmt.Sprintf("ns=%d;%s", first, id)
 	// the model sees it as a plain parsex line
@@ -627,6 +633,31 @@ func (e *env) b64ish() []byte {
 
 func hx(b []byte) string { return h.Hex(b) }
 
+// nearURI: a different URI that a lenient comparison would take for u
+func nearURI(rnd *h.Rand, u string) string {
+	switch rnd.Intn(8) {
+	case 0:
+		return strings.ToUpper(u)
+	case 1:
+		return strings.ToLower(u)
+	case 2:
+		return u + " "
+	case 3:
+		return " " + u
+	case 4:
+		return u + "b"
+	case 5:
+		if len(u) > 0 {
+			return u[:len(u)-1]
+		}
+		return "x"
+	case 6:
+		return u + "/"
+	default:
+		return strings.ReplaceAll(u, ":", "%3A")
+	}
+}
+
 func main() {
 	o := h.ParseOpts()
 	r := h.NewResult("C04", o)
@@ -666,19 +697,32 @@ func main() {
 		if i%4 == 0 {
 			// namespace tables
 			nt := 1 + e.rnd.Intn(4)
-			tbl := make([]string, nt)
-			for k := range tbl {
-				u := []string{"urn:a", "http://x/y", "", "urn:a;b", "urn:a", "urn:x;i=1", "a%3Bb", "nsu=urn:a"}[e.rnd.Intn(8)]
+			tbl := make([]string, 0, nt+2)
+			var plain []string
+			for k := 0; k < nt; k++ {
+				u := []string{"urn:a", "http://x/y", "", "urn:a;b", "urn:a", "urn:x;i=1", "a%3Bb", "nsu=urn:a", "urn:Vendor:Device", "http://Host/Path"}[e.rnd.Intn(10)]
 				if e.rnd.Chance(25) {
 					u = string(e.text(1 + e.rnd.Intn(5)))
 				}
-				tbl[k] = hx([]byte(u))
+				plain = append(plain, u)
+				tbl = append(tbl, hx([]byte(u)))
 			}
+			// near-duplicates: URIs that any lenient comparison (case folding, trimming, prefix match,
+			// unescaping) would confuse with an entry already in the table
+			for len(tbl) < cap(tbl) && e.rnd.Chance(60) {
+				u := nearURI(e.rnd, plain[e.rnd.Intn(len(plain))])
+				plain = append(plain, u)
+				pos := e.rnd.Intn(len(tbl) + 1)
+				tbl = append(tbl[:pos], append([]string{hx([]byte(u))}, tbl[pos:]...)...)
+			}
+			nt = len(tbl)
 			ts := "tbl " + strings.Join(tbl, " ")
 			e.run(fmt.Sprintf("nsux %d %s %s", e.rnd.Intn(nt), hx(e.assembledIdent()), ts))
 			e.run("parsex " + hx(e.assembled()) + " " + ts)
 			e.run("parsex " + hx(e.assembled()) + " nil")
 			e.run("parsex " + hx([]byte(s)) + " " + ts)
+			// a URI that is NOT in the table but close to one that is
+			e.run("parsex " + hx(append([]byte("nsu="+nearURI(e.rnd, plain[e.rnd.Intn(len(plain))])+";"), e.assembledIdent()...)) + " " + ts)
 		}
 		if i%4 == 1 {
 			e.run("b64d " + hx(e.b64ish()))
@@ -709,7 +753,7 @@ func main() {
 		"eq:same=true", "eq:same=false", "eq:same-node-different-encoding-or-flags",
 		"parse:empty/ok", "parse:ns/i=/ok", "parse:ns/i=/err", "parse:ns/s=/ok", "parse:ns/g=/ok", "parse:ns/g=/err", "parse:ns/b=/ok", "parse:ns/b=/err",
 		"parse:ns/ns=/err", "parse:ns/bare/ok", "parse:other/i=/err", "parse:nsu/i=/err",
-		"xparse:nsu/i=/ok", "xparse:nsu/i=/err", "xparse:nsu/s=/ok", "xparse:ns/i=/ok", "nsux:plain-uri", "nsux:uri-with-semicolon",
+		"xparse:nsu/i=/ok", "xparse:nsu/i=/err", "xparse:nsu/s=/ok", "xparse:ns/i=/ok", "nsux:plain-uri", "nsux:uri-with-semicolon", "nsux:table-has-case-variant",
 		"b64d:ok", "b64d:err", "b64e", "guid:ok", "guid:nil"}
 	for _, b := range want {
 		if r.Distribution[b] == 0 {
